@@ -141,6 +141,20 @@ pub fn materialize(seed: u64, profile: &str, dir: &Path) -> String {
             names.push("L".repeat(120 + rng.below(150)));
             names.push("l".repeat(120 + rng.below(150)));
         }
+        if rng.chance(2, 3) {
+            // a family of long names that agree in a long prefix (ligature or emoji-sequence names
+            // with suffix variants); short enough that their IR file names fit NAME_MAX
+            let len = 90 + rng.below(100);
+            let stem: String = (0..len)
+                .map(|i| if i % 9 == 8 { '_' } else { (b'a' + rng.below(26) as u8) as char })
+                .collect();
+            names.push(stem.clone());
+            for suffix in [".liga", ".liga.ss01", ".rlig", "_x", "_y"] {
+                if rng.chance(1, 2) {
+                    names.push(format!("{stem}{suffix}"));
+                }
+            }
+        }
     }
     if rng.chance(3, 4) {
         names.push("space".into());
